@@ -126,7 +126,12 @@ namespace sim
 		std::lock_guard<std::mutex> l(m_timer_queue_mutex);
 		// make sure we get a deterministic ordering of timers with the same
 		// expiration time
-		auto it = std::upper_bound(m_timer_queue.begin(), m_timer_queue.end(), t, timer_compare());
+		// among equal expiries the order is the one the timers were armed in. A
+		// timer that is queued again (a new wait after a cancelled one) keeps
+		// its place ahead of the timers armed after it
+		auto const range = std::equal_range(m_timer_queue.begin(), m_timer_queue.end(), t, timer_compare());
+		auto const it = std::find_if(range.first, range.second
+			, [t](asio::high_resolution_timer const* o) { return o->armed_seq() > t->armed_seq(); });
 		m_timer_queue.insert(it, t);
 	}
 
